@@ -155,7 +155,10 @@ class _Subst(ast.NodeTransformer):
         if node.id in self.mapping and isinstance(node.ctx, ast.Load):
             return copy.deepcopy(self.mapping[node.id])
         if node.id in self.rename:
-            return ast.copy_location(ast.Name(id=self.rename[node.id], ctx=node.ctx), node)
+            nn = ast.copy_location(ast.Name(id=self.rename[node.id], ctx=node.ctx), node)
+            if hasattr(node, "_jv_module"):
+                nn._jv_module = node._jv_module  # type: ignore[attr-defined]
+            return nn
         return node
 
 
@@ -263,7 +266,7 @@ def package_helpers(parsed: List[Tuple[str, ast.Module]], ambiguous: Set[str]):
             if isinstance(c, ast.ClassDef):
                 for st in c.body:
                     if isinstance(st, ast.FunctionDef) and f"{module}:{c.name}.{st.name}" not in ref and st.name not in ambiguous and not st.name.startswith("__") \
-                            and not st.decorator_list and st.name not in ref_names \
+                            and [ast.unparse(d_) for d_ in st.decorator_list] in ([], ["classmethod"]) and st.name not in ref_names \
                             and not any(hasattr(t_, st.name) for t_ in (dict, list, str, bytes, set, tuple, int, float, object, bytearray)):
                         b = _inlinable(st, method=True)
                         if b is not None:
@@ -356,7 +359,7 @@ class Inliner:
             fn, body = self.helpers[f.id]
             return fn, body, None
         if isinstance(f, ast.Attribute) and isinstance(f.value, ast.Name) and self.cls_stack:
-            cname, sname = self.cls_stack[-1]
+            cname, sname = self.cls_stack[-1][0], self.cls_stack[-1][1]
             if sname is not None and f.value.id == sname and (cname, f.attr) in self.methods:
                 fn, body = self.methods[(cname, f.attr)]
                 decs = [ast.unparse(d) for d in fn.decorator_list]
@@ -367,6 +370,11 @@ class Inliner:
         # an attribute of a builtin container / scalar type (so that the call cannot mean anything else)
         if isinstance(f, ast.Attribute) and _pure(f.value) and f.attr in self.unique_methods:
             fn, body = self.unique_methods[f.attr]
+            if fn.decorator_list:
+                # a class method: only `cls.m(...)` inside a class method (the receiver then IS the class the callee sees as cls)
+                if not (self.cls_stack and self.cls_stack[-1][1] is not None and isinstance(f.value, ast.Name) and f.value.id == self.cls_stack[-1][1]
+                        and len(self.cls_stack[-1]) > 2 and self.cls_stack[-1][2] == "classmethod"):
+                    return None
             return fn, body, f.value
         return None
 
@@ -611,7 +619,7 @@ class Inliner:
                 elif isinstance(node, (ast.FunctionDef, ast.AsyncFunctionDef)):
                     decs = [ast.unparse(d) for d in node.decorator_list]
                     sname = node.args.args[0].arg if (cname and node.args.args and "staticmethod" not in decs) else None
-                    self.cls_stack.append((cname or "", sname))
+                    self.cls_stack.append((cname or "", sname, "classmethod" if "classmethod" in decs else ("staticmethod" if "staticmethod" in decs else "method")))
                     node.body = self.process_block(node.body)
                     self.cls_stack.pop()
 
